@@ -25,14 +25,15 @@ QI(e, t) == [kind |-> "instant", e |-> e, t |-> t]
 QR(e, s, en, st) == [kind |-> "range", e |-> e, start |-> s, end |-> en, step |-> st]
 
 -----------------------------------------------------------------------------
-(* exh: series 1 = ma{job=a,inst=x} takes every layout over LawTimes x LawVals (absent / value / marker),     *)
-(* the other series are fixed                                                                                  *)
+(* exh: series 1 = ma{job=a,inst=x} takes every layout over LawTimes x LawVals (absent / value / NaN sample /  *)
+(* marker), the other series are fixed (one of them carries a NaN sample)                                      *)
 CONSTANTS LawTimes, LawVals, LawFree      \* LawFree: number of series with free layouts (1 or 2)
 NOPT == -1
 LawValsA == {0, 2, STALE}          \* cfg files cannot spell negative numbers
 LawValsB == {0, 1, 3, STALE}
+LawValsN == {0, 2, STALE, NAN}     \* with the ordinary NaN sample
 LawLabs == << Lab3("ma", "a", "x"), Lab2("ma", "ab"), Lab3("ma", "b", "y") >>
-LawFixed == << <<>>, << <<0, 1>>, <<2, STALE>>, <<3, 4>> >>, << <<1, 3>>, <<2, 0>>, <<4, 2>> >> >>
+LawFixed == << <<>>, << <<0, 1>>, <<2, STALE>>, <<3, 4>> >>, << <<1, 3>>, <<2, NAN>>, <<4, 2>> >> >>
 LayoutPts(f) == LET ts == SetToSortSeq({t \in LawTimes : f[t] # NOPT}, LAMBDA a, b : a < b)
                 IN [i \in 1..Len(ts) |-> <<ts[i], f[ts[i]]>>]
 LawData(x) ==
@@ -56,7 +57,8 @@ LawQueries(D, x) ==
   \cup {QI(Sl("ma", <<m>>, 0), Max(LawTimes)) : m \in LawMatchersQ}
   \cup {QI(Rf(fn, LawSel, r), t) : fn \in {"avg_over_time", "rate"}, r \in {2, 3}, t \in LawT}
   \cup {QI(Ag(op, mode, ls, LawSel), Max(LawTimes)) : op \in {"sum", "count"}, mode \in {"by", "without"}, ls \in {{"job"}, {"inst"}, {}}}
-  \cup {QI(Bn(op, b, LawSel, Nm(1)), Max(LawTimes)) : op \in {"gt", "eq"}, b \in BOOLEAN}
+  \cup {QI(Ag(op, mode, {}, arg), Max(LawTimes)) : op \in {"min", "max"}, mode \in {"none", "without"}, arg \in {LawSel, Rf("last_over_time", LawSel, 3), Bn("mul", FALSE, LawSel, Nm(2))}}
+  \cup {QI(Bn(op, b, LawSel, Nm(1)), Max(LawTimes)) : op \in {"gt", "eq", "lt", "ne"}, b \in BOOLEAN}
   \cup {QI(Bn("ge", TRUE, Bn("gt", TRUE, LawSel, Nm(1)), Nm(1)), Max(LawTimes))}
   \cup LawRangeQueries(D, x)
 
@@ -105,7 +107,53 @@ BfsRange ==
             Ag("sum", "by", {"job"}, Sl("ma", <<>>, 0)), Ag("avg", "without", {"inst"}, Sl("ma", <<>>, 0)),
             Ag("count", "none", {}, Sl("ma", <<>>, 0)), Ag("max", "by", {"inst"}, Rf("rate", Sl("ma", <<>>, 0), 5))},
      s \in {0, 7}, en \in {20, 26}, st \in {1, 3, 4}}
-BfsQueries(D, x) == BfsInstant \cup BfsRange
+
+(* the NaN family: a sample set whose series carry ORDINARY NaN samples at the start, in the middle and at the end of the      *)
+(* windows asked (ax: every 4th scrape), all-NaN windows (bx), every other sample (by), NaN next to a marker and a gap (abx),  *)
+(* a series without NaN in the same groups (ay), a second metric for one-to-one matches; asked with every range function,      *)
+(* aggregations over them, comparisons with and without bool, arithmetic                                                       *)
+NaNData(x) == {
+  [unit |-> 15, epoch |-> 0,
+   series |-> << [lab |-> Lab3("na", "a", "x"),  pts |-> <<P(0, NAN), P(1, -6), P(2, 14), P(3, 4), P(4, NAN), P(5, 8), P(6, 10), P(7, 4), P(8, NAN), P(9, 3), P(10, 5), P(11, NAN), P(12, NAN)>>],
+                 [lab |-> Lab3("na", "a", "y"),  pts |-> <<P(0, 1), P(1, 2), P(2, 3), P(3, 4), P(4, 5), P(5, 6), P(6, 7), P(7, 8), P(8, 9), P(9, 10), P(10, 11), P(11, 12)>>],
+                 [lab |-> Lab3("na", "b", "x"),  pts |-> <<P(0, NAN), P(1, NAN), P(2, NAN), P(3, NAN), P(4, 2), P(5, NAN), P(6, NAN), P(7, NAN), P(8, NAN), P(10, NAN)>>],
+                 [lab |-> Lab3("na", "b", "y"),  pts |-> <<P(0, 5), P(1, NAN), P(2, 3), P(3, NAN), P(4, 1), P(5, NAN), P(6, 7), P(7, NAN), P(8, 2), P(9, NAN), P(10, 4)>>],
+                 [lab |-> Lab3("na", "ab", "x"), pts |-> <<P(0, NAN), P(1, 1), P(2, 2), P(3, STALE), P(5, NAN), P(6, 6), P(7, 0), P(8, NAN), P(9, STALE), P(12, 3)>>],
+                 [lab |-> Lab3("nb", "a", "x"),  pts |-> <<P(0, 1), P(1, 2), P(2, NAN), P(3, 4), P(4, NAN), P(5, 1), P(6, 2), P(7, NAN), P(8, NAN), P(9, 9), P(10, 10)>>],
+                 [lab |-> Lab3("nb", "b", "y"),  pts |-> <<P(0, NAN), P(2, 3), P(4, 1), P(5, 5), P(6, NAN), P(8, 2), P(10, NAN)>>] >>] }
+NaS == Sl("na", <<>>, 0)
+NaNInstant ==
+  {QI(s, t) : s \in {NaS, Sl("na", <<>>, 2), Sl("nb", <<>>, 0)}, t \in {0, 4, 5, 8, 13}}
+  \cup {QI(Rf(fn, NaS, r), t) : fn \in RFns, r \in {2, 3, 4}, t \in {3, 4, 6, 8, 10, 12}}
+  \cup {QI(Rf(fn, Sl("na", <<>>, 1), 3), t) : fn \in {"min_over_time", "max_over_time", "sum_over_time", "last_over_time"}, t \in {5, 9}}
+  \cup {QI(Ag(op, mode, ls, NaS), t) : op \in AggOps, mode \in {"none", "by"}, ls \in {{"job"}, {"inst"}}, t \in {4, 5, 8}}
+  \cup {QI(Ag(op, "by", {"job"}, Rf(fn, NaS, r)), t) : op \in AggOps, fn \in {"min_over_time", "max_over_time", "sum_over_time", "last_over_time"},
+                                                     r \in {3, 4}, t \in {4, 8}}
+  \cup {QI(Bn(op, b, NaS, Nm(3)), t) : op \in CmpOps, b \in BOOLEAN, t \in {4, 7}}
+  \cup {QI(Bn(op, b, Nm(3), NaS), 4) : op \in CmpOps, b \in BOOLEAN}
+  \cup {QI(Bn(op, b, Rf(fn, NaS, 3), Nm(4)), 8) : op \in CmpOps, b \in BOOLEAN, fn \in {"last_over_time", "max_over_time"}}
+  \cup {QI(Bn(op, b, Ag("max", "by", {"job"}, NaS), Nm(4)), 8) : op \in {"gt", "le", "ne"}, b \in BOOLEAN}
+  \cup {QI(Bn(op, FALSE, NaS, Nm(2)), 4) : op \in ArithOps}
+  \cup {QI(Bn(op, FALSE, Nm(2), NaS), 8) : op \in ArithOps}
+  \cup {QI(BnM(op, b /\ op \in CmpOps, "on", {"job", "inst"}, NaS, Sl("nb", <<>>, 0)), t) : op \in ArithOps \cup CmpOps, b \in BOOLEAN, t \in {4, 6}}
+  \cup {QI(Ag(op, "none", {}, Bn("gt", FALSE, NaS, Nm(3))), 4) : op \in {"count", "sum", "max"}}
+  \* aggregations that the executor evaluates (operand = arithmetic / comparison / another aggregation over instant selectors)
+  \cup {QI(Ag(op, mode, {"job", "inst"}, arg), t) :
+          op \in AggOps, mode \in {"by"}, t \in {3, 4},
+          arg \in {Bn("mul", FALSE, NaS, Nm(1)), Bn("add", FALSE, Nm(3), NaS), Bn("ne", FALSE, NaS, Nm(3)),
+                   Ag("sum", "by", {"job", "inst"}, NaS), Bn("mul", FALSE, Rf("last_over_time", NaS, 2), Nm(1))}}
+  \cup {QI(Ag(op, "by", {"job"}, Ag("max", "by", {"job", "inst"}, NaS)), t) : op \in {"min", "max"}, t \in {3, 4, 5}}
+NaNRange ==
+  {QR(e, s, en, st) :
+     e \in {NaS, Rf("min_over_time", NaS, 2), Rf("max_over_time", NaS, 3), Rf("sum_over_time", NaS, 2), Rf("avg_over_time", NaS, 3),
+            Rf("count_over_time", NaS, 2), Rf("last_over_time", NaS, 3), Rf("rate", NaS, 4), Rf("changes", NaS, 4),
+            Ag("max", "by", {"job"}, Rf("max_over_time", NaS, 4)), Ag("min", "by", {"inst"}, Rf("min_over_time", NaS, 2)),
+            Ag("sum", "by", {"job"}, NaS), Ag("count", "none", {}, NaS), Ag("avg", "by", {"job"}, Rf("last_over_time", NaS, 3)),
+            Ag("min", "by", {"job", "inst"}, Bn("mul", FALSE, NaS, Nm(1))), Ag("max", "by", {"inst"}, Ag("sum", "by", {"job", "inst"}, NaS))},
+     s \in {0, 3}, en \in {13}, st \in {1, 2, 4}}
+NaNQueries == NaNInstant \cup NaNRange
+FixedAndNaNData(x) == FixedData(x) \cup NaNData(x)
+BfsQueries(D, x) == IF D \in NaNData(x) THEN NaNQueries ELSE BfsInstant \cup BfsRange
 
 \* sentinel of F-C18-7 (AllowRunaway = TRUE): tick 0 is one hour after the Unix epoch, so the runaway answer is short
 SentinelData(x) == {
@@ -116,8 +164,10 @@ SentinelQueries(D, x) ==
   {QR(Rf(fn, Sl("ma", <<>>, 0), 2), 0, 8, 4) : fn \in {"count_over_time", "sum_over_time", "max_over_time"}}
 \* every BfsStride-th query of the universe, starting at BfsOff (quick tier: a seeded sample)
 CONSTANTS BfsStride, BfsOff
+\* (the NaN family is sampled more densely: every 2nd)
 BfsSample(D, x) == LET s == SetToSeq(BfsQueries(D, x))
-                   IN {s[i] : i \in {j \in 1..Len(s) : j % BfsStride = BfsOff}}
+                       st == IF D \in NaNData(x) /\ BfsStride > 2 THEN 2 ELSE BfsStride
+                   IN {s[i] : i \in {j \in 1..Len(s) : j % st = BfsOff % st}}
 
 -----------------------------------------------------------------------------
 (* sim: random sample sets and random queries.  Every random choice is bound by a quantifier over a  *)
@@ -129,16 +179,25 @@ RE(S) == RandomElement(S)
 SimLabs == << Lab3("ma", "a", "x"), Lab3("ma", "a", "y"), Lab3("ma", "ab", "x"), Lab2("ma", "b"),
               Lab3("mb", "a", "x"), Lab3("mb", "ab", "x"), Lab3("mb", "b", "y"), Lab2("mc", "a"), Lab2("mc", "b") >>
 
-\* one series: counter (slope, resets) or gauge; irregular scrapes; a gap longer than the look-back; markers
+\* one series: counter (slope, resets) or gauge; irregular scrapes; a gap longer than the look-back; markers; ordinary NaN
+\* samples (a few, every k-th scrape, or a run of them - so that windows start, end and are filled with NaN)
+NanAt(t, c, a, k, l) ==
+  IF c <= 5 THEN FALSE                             \* half of the series carry no NaN
+  ELSE IF c <= 7 THEN RE(1..8) = 1                  \* a few
+  ELSE IF c = 8 THEN t % k = a % k                  \* every k-th scrape
+  ELSE IF c = 9 THEN t >= a /\ t <= a + l           \* a run
+  ELSE RE(1..8) # 1                                 \* nearly all
 SimPts(x) ==
   {SetToSortSeq(
      {<<t, IF t \in stale THEN STALE
+           ELSE IF NanAt(t, nc, na, nk, nl) THEN NAN
            ELSE IF kind = 1 THEN (IF t < reset THEN c0 + slope * t ELSE slope * (t - reset) + RE(0..1))
            ELSE IF kind = 2 THEN RE(-3..6)
            ELSE c0>> :
         t \in {tt \in first..TMax : (tt < gap \/ tt > gap + glen) /\ RE(1..10) <= dens}},
      LAMBDA a, b : a[1] < b[1]) :
     stale \in {IF RE(1..3) = 1 THEN {RE(0..TMax), RE(0..TMax)} ELSE {}}, dens \in {RE({3, 5, 7, 10})},
+    nc \in {RE(1..10)}, na \in {RE(0..TMax)}, nk \in {RE(2..4)}, nl \in {RE(2..8)},
     gap \in {RE(0..TMax)}, glen \in {RE({0, 0, 3, 6, 9})}, first \in {RE({0, 0, 1, 4, 9})},
     kind \in {RE({1, 1, 2, 3})}, c0 \in {RE(0..6)}, slope \in {RE(1..3)}, reset \in {RE(3..(TMax + 5))}}
 
